@@ -100,7 +100,9 @@ def check_from(ck, fn, with_val, ev=None):
             ck.ob("F-assume-init-only-on-zero", key, good, "%s: for code 0 the Ok payload must be the slot value, read exactly once: %s" % (key, o),
                   sample={"fn": key, "zero_case": repr(o)[:200]})
         else:
-            ck.ob("F-no-slot", key, not reads, "%s reads a slot although it has none" % key)
+            # a slot the function made itself out of `()` (delegation to the payload-carrying sibling) is not an input slot
+            foreign = [e for e in reads if not (sem.strip(e[2][0])[0] == "opq" and sem.strip(e[2][0])[2][0] == "call" and sem.strip(e[2][0])[2][1].endswith("MaybeUninit::<T>::new"))]
+            ck.ob("F-no-slot", key, not foreign, "%s reads a slot although it has none" % key)
     for o in nonz:
         reads = [e for e in o.calls() if e[1].endswith("assume_init") or e[1].endswith("assume_init_read")]
         dec = o.calls("IntError::from_int_err")
